@@ -1,12 +1,196 @@
-(* C11 — slice.EditScript returns a valid, minimal, canonical edit script.
+(* C11 — slice.EditScript / editScriptFunc returns a valid, minimal, canonical edit script.
    Only statements, each closed by [exact] of a lemma proved elsewhere
-   (Slice/EditSpecProofs.v, Slice/EditProofs.v). *)
-From Coq Require Import ZArith List Bool.
-Import ListNotations.
-From Mds Require Import Slice.Subseq Slice.EditModel Slice.EditSpecProofs.
+   (Slice/EditSpecProofs.v, Slice/EditProofs.v, Slice/EditTheorems.v).
 
-(* The executable checker the driver runs on the implementation's output decides the
-   specification [Valid], whenever [same] decides identity of elements. *)
+   Reading guide.  [edit_script_run eqb lhs rhs] is the statement-by-statement model of
+   editScriptFunc(eq, lhs, rhs) (LCSFunc's model, then the loop), with result EOk es | EPanic
+   (an index or slice bound out of range) | EOutOfFuel; [edit_script_func] is the script it
+   returns.  [Valid eqb l r es] (Slice/EditSpec.v): executing es consumes l and produces r, each
+   X/Y being the very span at the current offset (l = X e ++ l'), the elements of an Emit being
+   equivalent position by position to the span of rhs.  [expand lhs es] reads the empty script
+   as the single Emit of all of lhs (the documented convention).  [kept] counts emitted
+   elements.  All theorems hold for every element type and every equivalence eqb. *)
+From Coq Require Import ZArith List Bool PeanoNat.
+Import ListNotations.
+From Mds Require Import Slice.Subseq Slice.LcsModel Slice.EditModel Slice.EditSpecProofs
+     Slice.EditProofs Slice.EditTheorems.
+
+(* ---- the whole property in one statement ------------------------------------------------ *)
+
+(* For all lhs rhs: LCSFunc returns some L; editScriptFunc returns normally (no index / slice
+   bound out of range, no loop out of fuel) some es; es is valid; it keeps exactly |L|
+   elements, and no valid script keeps more; it is canonical (no empty edit, adjacent edits
+   differ in kind, no Drop next to a Copy) and moreover Emit / non-Emit edits strictly
+   alternate; and it is empty exactly when lhs and rhs are equal under eqb. *)
+Theorem C11_edit_script :
+  forall (T : Type) (eqb : T -> T -> bool),
+    (forall x, eqb x x = true) ->
+    (forall x y, eqb x y = true -> eqb y x = true) ->
+    (forall x y z, eqb x y = true -> eqb y z = true -> eqb x z = true) ->
+    forall lhs rhs,
+    exists L es,
+      lcs_func T eqb lhs rhs = Some L /\
+      edit_script_run eqb lhs rhs = EOk es /\
+      ValidScript eqb lhs rhs es /\
+      kept (expand lhs es) = length L /\
+      (forall es', Valid eqb lhs rhs es' -> (kept es' <= kept (expand lhs es))%nat) /\
+      canonical es = true /\ alternating es = true /\
+      (es = [] <-> EqLists eqb lhs rhs).
+Proof. exact edit_script_run_spec. Qed.
+Print Assumptions C11_edit_script.
+
+(* the hypotheses are satisfiable, on a non-trivial instance: an equivalence that is not
+   equality (elements are key/payload pairs compared by key), repeated keys on both sides *)
+Definition key_eqb (a b : nat * nat) : bool := Nat.eqb (fst a) (fst b).
+Lemma key_refl : forall x, key_eqb x x = true.
+Proof. intros x. apply Nat.eqb_refl. Qed.
+Lemma key_sym : forall x y, key_eqb x y = true -> key_eqb y x = true.
+Proof. unfold key_eqb. intros x y H. apply Nat.eqb_eq in H. rewrite H. apply Nat.eqb_refl. Qed.
+Lemma key_trans : forall x y z, key_eqb x y = true -> key_eqb y z = true -> key_eqb x z = true.
+Proof. unfold key_eqb. intros x y z H1 H2. apply Nat.eqb_eq in H1. now rewrite H1. Qed.
+
+Example C11_edit_script_ex :
+  edit_script_run key_eqb [(1,0); (2,0); (1,1); (3,0); (1,2)] [(1,7); (1,8); (4,7); (1,9); (2,7)]
+  = EOk [mkEdit Emit [(1,0)] []; mkEdit Drop [(2,0)] []; mkEdit Emit [(1,1)] [];
+         mkEdit Replace [(3,0)] [(4,7)]; mkEdit Emit [(1,2)] []; mkEdit Copy [] [(2,7)]].
+Proof. vm_compute. reflexivity. Qed.
+
+(* ---- the clauses one by one -------------------------------------------------------------- *)
+
+(* no index ever out of range, no slice bound out of range, no loop out of fuel *)
+Theorem C11_no_panic :
+  forall (T : Type) (eqb : T -> T -> bool),
+    (forall x, eqb x x = true) ->
+    (forall x y, eqb x y = true -> eqb y x = true) ->
+    (forall x y z, eqb x y = true -> eqb y z = true -> eqb x z = true) ->
+    forall lhs rhs, edit_script_run eqb lhs rhs = EOk (edit_script_func eqb lhs rhs).
+Proof. exact edit_script_run_ok. Qed.
+Print Assumptions C11_no_panic.
+
+(* the precondition matters: under an irreflexive relation the real code (and the model)
+   index out of range *)
+Example C11_no_panic_ex : edit_script_run Nat.ltb [0] [1] = EPanic.
+Proof. vm_compute. reflexivity. Qed.
+
+(* executing the edits consumes lhs and produces rhs, X/Y the spans at the current offsets *)
+Theorem C11_valid :
+  forall (T : Type) (eqb : T -> T -> bool),
+    (forall x, eqb x x = true) ->
+    (forall x y, eqb x y = true -> eqb y x = true) ->
+    (forall x y z, eqb x y = true -> eqb y z = true -> eqb x z = true) ->
+    forall lhs rhs, ValidScript eqb lhs rhs (edit_script_func eqb lhs rhs).
+Proof. exact edit_script_valid. Qed.
+Print Assumptions C11_valid.
+
+Example C11_valid_ex :
+  valid_script_gen key_eqb (fun a b => Nat.eqb (fst a) (fst b) && Nat.eqb (snd a) (snd b))
+    [(1,0); (2,0); (1,1); (3,0); (1,2)] [(1,7); (1,8); (4,7); (1,9); (2,7)]
+    (edit_script_func key_eqb [(1,0); (2,0); (1,1); (3,0); (1,2)] [(1,7); (1,8); (4,7); (1,9); (2,7)])
+  = true.
+Proof. vm_compute. reflexivity. Qed.
+
+(* the same, read as an execution: what is consumed is lhs, what is output is rhs up to eqb *)
+Theorem C11_executes :
+  forall (T : Type) (eqb : T -> T -> bool),
+    (forall x, eqb x x = true) ->
+    (forall x y, eqb x y = true -> eqb y x = true) ->
+    (forall x y z, eqb x y = true -> eqb y z = true -> eqb x z = true) ->
+    forall lhs rhs,
+      let es := expand lhs (edit_script_func eqb lhs rhs) in
+      consumed es = lhs /\ EqLists eqb (produced es) rhs.
+Proof. exact edit_script_exec. Qed.
+Print Assumptions C11_executes.
+
+(* the public EditScript on a comparable type (eq is ==): the output is rhs itself, and the
+   script is empty exactly when lhs = rhs *)
+Theorem C11_executes_exact :
+  forall (T : Type) (eqb : T -> T -> bool),
+    (forall a b, eqb a b = true <-> a = b) ->
+    forall lhs rhs,
+      let es := expand lhs (edit_script_func eqb lhs rhs) in
+      consumed es = lhs /\ produced es = rhs.
+Proof. exact edit_script_exec_exact. Qed.
+Print Assumptions C11_executes_exact.
+
+Example C11_executes_exact_ex :
+  produced (expand [1; 2; 3; 4; 5] (edit_script_func Nat.eqb [1; 2; 3; 4; 5] [1; 3; 3; 5; 6; 7]))
+  = [1; 3; 3; 5; 6; 7].
+Proof. vm_compute. reflexivity. Qed.
+
+(* the number of kept elements is the length of what LCSFunc returns ... *)
+Theorem C11_kept_is_lcs_length :
+  forall (T : Type) (eqb : T -> T -> bool),
+    (forall x, eqb x x = true) ->
+    (forall x y, eqb x y = true -> eqb y x = true) ->
+    (forall x y z, eqb x y = true -> eqb y z = true -> eqb x z = true) ->
+    forall lhs rhs,
+    exists L, lcs_func T eqb lhs rhs = Some L /\
+              kept (expand lhs (edit_script_func eqb lhs rhs)) = length L.
+Proof. exact edit_script_kept. Qed.
+Print Assumptions C11_kept_is_lcs_length.
+
+(* ... and no valid script keeps more (so none is shorter) *)
+Theorem C11_minimal :
+  forall (T : Type) (eqb : T -> T -> bool),
+    (forall x, eqb x x = true) ->
+    (forall x y, eqb x y = true -> eqb y x = true) ->
+    (forall x y z, eqb x y = true -> eqb y z = true -> eqb x z = true) ->
+    forall lhs rhs es',
+      Valid eqb lhs rhs es' ->
+      (kept es' <= kept (expand lhs (edit_script_func eqb lhs rhs)))%nat.
+Proof. exact edit_script_minimal. Qed.
+Print Assumptions C11_minimal.
+
+Example C11_minimal_ex :
+  kept (expand [0; 1; 0; 1] (edit_script_func Nat.eqb [0; 1; 0; 1] [1; 0; 1; 0])) = 3.
+Proof. vm_compute. reflexivity. Qed.
+
+(* canonical form *)
+Theorem C11_canonical :
+  forall (T : Type) (eqb : T -> T -> bool),
+    (forall x, eqb x x = true) ->
+    (forall x y, eqb x y = true -> eqb y x = true) ->
+    (forall x y z, eqb x y = true -> eqb y z = true -> eqb x z = true) ->
+    forall lhs rhs,
+      canonical (edit_script_func eqb lhs rhs) = true /\
+      alternating (edit_script_func eqb lhs rhs) = true.
+Proof. exact edit_script_canonical. Qed.
+Print Assumptions C11_canonical.
+
+(* the predicate is not vacuous: it rejects an unfused Drop+Copy and two adjacent Emits *)
+Example C11_canonical_ex :
+  canonical [mkEdit Drop [1] []; mkEdit Copy [] [2]] = false /\
+  canonical [mkEdit Emit [1] []; mkEdit Emit [2] []] = false /\
+  canonical [mkEdit Emit [1] []; mkEdit Drop [] []] = false /\
+  canonical (edit_script_func Nat.eqb [1; 2] [1; 3]) = true.
+Proof. vm_compute. auto. Qed.
+
+(* empty exactly when the inputs are equal *)
+Theorem C11_empty_iff :
+  forall (T : Type) (eqb : T -> T -> bool),
+    (forall x, eqb x x = true) ->
+    (forall x y, eqb x y = true -> eqb y x = true) ->
+    (forall x y z, eqb x y = true -> eqb y z = true -> eqb x z = true) ->
+    forall lhs rhs, edit_script_func eqb lhs rhs = [] <-> EqLists eqb lhs rhs.
+Proof. exact edit_script_empty_iff. Qed.
+Print Assumptions C11_empty_iff.
+
+Theorem C11_empty_iff_eq :
+  forall (T : Type) (eqb : T -> T -> bool),
+    (forall a b, eqb a b = true <-> a = b) ->
+    forall lhs rhs, edit_script_func eqb lhs rhs = [] <-> lhs = rhs.
+Proof. exact edit_script_empty_iff_eq. Qed.
+Print Assumptions C11_empty_iff_eq.
+
+Example C11_empty_iff_ex :
+  edit_script_func key_eqb [(1,0); (2,0)] [(1,5); (2,6)] = [] /\
+  edit_script_func Nat.eqb [1; 2] [1; 2; 2] <> [].
+Proof. split; vm_compute; [reflexivity | discriminate]. Qed.
+
+(* ---- about the specification and the checker --------------------------------------------- *)
+
+(* The executable checker the driver runs on the implementation's output decides [Valid],
+   whenever [same] decides identity of elements. *)
 Theorem C11_checker_decides_valid :
   forall (T : Type) (eqb same : T -> T -> bool),
     (forall a b, same a b = true <-> a = b) ->
@@ -16,10 +200,13 @@ Print Assumptions C11_checker_decides_valid.
 
 Example C11_checker_decides_valid_ex :
   valid_edits_gen Nat.eqb Nat.eqb [1; 2; 3] [1; 4; 3]
-    [mkEdit Emit [1] []; mkEdit Replace [2] [4]; mkEdit Emit [3] []] = true.
-Proof. vm_compute. reflexivity. Qed.
+    [mkEdit Emit [1] []; mkEdit Replace [2] [4]; mkEdit Emit [3] []] = true /\
+  valid_edits_gen Nat.eqb Nat.eqb [1; 2; 3] [1; 4; 3]
+    [mkEdit Emit [1] []; mkEdit Replace [2] [4]; mkEdit Emit [2] []] = false.
+Proof. vm_compute. auto. Qed.
 
-(* Every valid script exhibits a common subsequence as long as what it keeps. *)
+(* Every valid script exhibits a common subsequence as long as what it keeps (the bridge from
+   C12's "no common subsequence is longer" to "no script keeps more"). *)
 Theorem C11_valid_script_common_subseq :
   forall (T : Type) (eqb : T -> T -> bool) es l r,
     Valid eqb l r es ->
@@ -27,6 +214,9 @@ Theorem C11_valid_script_common_subseq :
 Proof. exact Valid_common_subseq. Qed.
 Print Assumptions C11_valid_script_common_subseq.
 
-Example C11_valid_script_common_subseq_ex :
-  Valid Nat.eqb [1; 2; 3] [1; 4; 3] [mkEdit Emit [1] []; mkEdit Replace [2] [4]; mkEdit Emit [3] []].
-Proof. apply (valid_edits_gen_iff nat Nat.eqb Nat.eqb PeanoNat.Nat.eqb_eq). vm_compute. reflexivity. Qed.
+(* valid scripts compose (used by the mdiff slice, C13) *)
+Theorem C11_valid_app :
+  forall (T : Type) (eqb : T -> T -> bool) es1 l1 r1 es2 l2 r2,
+    Valid eqb l1 r1 es1 -> Valid eqb l2 r2 es2 -> Valid eqb (l1 ++ l2) (r1 ++ r2) (es1 ++ es2).
+Proof. exact Valid_app. Qed.
+Print Assumptions C11_valid_app.
